@@ -155,7 +155,9 @@ def evaluate(label, case):
                 case, res, j = hit
                 break
     if j is not None:
-        j = (_tag(case) + ":" + j[0], j[1], j[2])
+        # one key per kind of failure and crash point (the request / response class of the first lost row is incidental)
+        cr = case.get("crash")
+        j = (_tag(case) + ":" + j[0].split(":")[0] + (":at=" + cr["how"] if cr else ""), j[1], j[2])
     return label, case, res, j
 
 
